@@ -544,6 +544,12 @@ class HTTPConnectionPool(ConnectionPool, RequestMethods):
         response._connection = response_conn  # type: ignore[attr-defined]
         response._pool = self  # type: ignore[attr-defined]
 
+        # A preloaded body was read to the end before the response got hold of
+        # its connection, so that read could not release the connection back
+        # to the pool: do it now.
+        if response_conn is not None and response.closed:
+            response.release_conn()
+
         log.debug(
             '%s://%s:%s "%s %s %s" %s %s',
             self.scheme,
